@@ -516,3 +516,111 @@ func (c *Ctx) initIs(rule, pkg, name, want string) {
 		c.Broken(rule, pkg+"."+name+"/value", fmt.Sprintf("%d initialising stores found", n))
 	}
 }
+
+// NoStaleSliceAlias: every memory access through an element address of the
+// slice field typ.field (x.f[i], &x.f[i], and field addresses derived from
+// it) uses the slice value that is current at the access: no store to the
+// same field lies on a path between the load of the slice header and the
+// access. A pointer taken before `x.f = append(x.f, ...)` may point into the
+// abandoned backing array, so a write through it is lost and a read is stale.
+func (c *Ctx) NoStaleSliceAlias(rule string, fn *ssa.Function, typ, field string) int {
+	n := 0
+	Instrs(fn, func(in ssa.Instruction) {
+		ia, ok := in.(*ssa.IndexAddr)
+		if !ok {
+			return
+		}
+		ld, ok := ia.X.(*ssa.UnOp)
+		if !ok || ld.Op != token.MUL {
+			return
+		}
+		fa, ok := ld.X.(*ssa.FieldAddr)
+		if !ok {
+			return
+		}
+		fv, base := fieldOf(fa)
+		if fv == nil || fv.Name() != field || !typeNamed(base.Type(), typ) {
+			return
+		}
+		// all memory accesses through ia (directly or through field addresses of the element)
+		var uses []ssa.Instruction
+		var collect func(v ssa.Value)
+		collect = func(v ssa.Value) {
+			refs := v.Referrers()
+			if refs == nil {
+				return
+			}
+			for _, r := range *refs {
+				switch x := r.(type) {
+				case *ssa.FieldAddr:
+					collect(x)
+				case *ssa.Store:
+					uses = append(uses, x)
+				case *ssa.UnOp:
+					if x.Op == token.MUL {
+						uses = append(uses, x)
+					}
+				case *ssa.Phi:
+					collect(x)
+				case ssa.CallInstruction:
+					uses = append(uses, x)
+				}
+			}
+		}
+		collect(ia)
+		for _, u := range uses {
+			if ld2, isLoad := u.(*ssa.UnOp); isLoad {
+				// a stale read matters only for fields that are mutated after construction
+				f3, b3 := fieldOf(ld2.X)
+				if f3 == nil || !c.fieldMutated(TypeStr(b3.Type()), f3.Name()) {
+					continue
+				}
+			}
+			n++
+			bad := ReachAvoiding(fn, ld, func(i ssa.Instruction) bool { return i == u }, func(i ssa.Instruction) bool {
+				st, ok := i.(*ssa.Store)
+				if !ok {
+					return false
+				}
+				f2, b2 := fieldOf(st.Addr)
+				return f2 != nil && f2.Name() == field && typeNamed(b2.Type(), typ) && instrReaches(i, u)
+			})
+			kind := "read"
+			if _, isSt := u.(*ssa.Store); isSt {
+				kind = "write"
+			}
+			key := FuncName(fn) + "/" + typ + "." + field + "/" + kind + "-through-element@" + fmt.Sprint(n)
+			c.Check(bad == nil, rule, key, c.pos(u), "element access uses the current slice value", kind+" through an element pointer taken before "+typ+"."+field+" was re-assigned (append may have moved the array): the access goes to the abandoned copy")
+		}
+	})
+	return n
+}
+
+
+// fieldMutated: some function of the module stores to field name of struct
+// type typ through a pointer that is not a local variable of that function
+// (i.e. after construction).
+func (c *Ctx) fieldMutated(typ, name string) bool {
+	typ = strings.TrimPrefix(typ, "*")
+	key := typ + "." + name
+	if c.mutated == nil {
+		c.mutated = map[string]bool{}
+		for _, fn := range c.P.Funcs {
+			Instrs(fn, func(in ssa.Instruction) {
+				st, ok := in.(*ssa.Store)
+				if !ok {
+					return
+				}
+				fv, base := fieldOf(st.Addr)
+				if fv == nil {
+					return
+				}
+				if root, _ := allocRoot(st.Addr); root != nil && !root.Heap {
+					return
+				}
+				c.mutated[strings.TrimPrefix(TypeStr(base.Type()), "*")+"."+fv.Name()] = true
+			})
+		}
+	}
+	return c.mutated[key]
+}
